@@ -180,8 +180,8 @@ def classify(leaves):
 def _elem(cls, i):
     from ..pe import StructV
     ct = Tag("None", [], "Option") if cls == "N" else Tag("Some", [cls], "Option")
-    rest = SymObj("instr", ("named", "?"))
-    inner = StructV("Attr", {"container_ty": ct, "_id": i, "_cls": cls}, rest=SymObj("instr.attr", ("named", "?")))
+    rest = SymObj(f"instr{i}", ("named", "?"))
+    inner = StructV("Attr", {"container_ty": ct, "_id": i, "_cls": cls}, rest=SymObj(f"instr{i}.attr", ("named", "?")))
     return StructV("Instr", {"container_ty": ct, "attr": inner, "_id": i, "_cls": cls}, rest=rest)
 
 
@@ -232,23 +232,51 @@ def lookup_semantics(repo, fi, impl):
 
     def resid_key(lf):
         return tuple(sorted((a, str(v)) for a, v in lf.decisions.items()))
+
+    def elem_atoms(key, i):
+        """The part of an assignment that concerns element i: its own record instr<i>.* with the index stripped, plus the shared atoms."""
+        out = []
+        for a, v in key:
+            if re.search(r"instr\d", a):
+                if f"instr{i}" in a and not re.search(rf"instr(?!{i}\b)\d", a):
+                    out.append((a.replace(f"instr{i}", "instr#"), v))
+            else:
+                out.append((a, v))
+        return frozenset(out)
     try:
         base = {}
         for cls in "TNU":
             for lf in run_on([_elem(cls, 0)]):
-                base.setdefault(cls, {})[resid_key(lf)] = outcome(lf)
+                base.setdefault(cls, {})[elem_atoms(resid_key(lf), 0)] = outcome(lf)
         is_pred = any(isinstance(o, tuple) for d in base.values() for o in d.values())
-
-        def R(lf_key, cls="T"):
-            # residual assignment keys may be decided lazily: match on the sub-assignment
-            for k, o in base[cls].items():
-                if set(k) <= set(lf_key) or set(lf_key) <= set(k):
-                    return o
-            return "?"
         truthy = (lambda o: o == ("bool", True)) if is_pred else (lambda o: o is not None)
+
+        def R(key, i, cls):
+            """Does element i (of class cls) pass the residual filter under this assignment? None = not determined on this path."""
+            mine = elem_atoms(key, i)
+            own = {x for x in mine if "instr#" in x[0]}
+            hits = [o for k, o in base[cls].items() if {x for x in k if "instr#" in x[0]} <= own and {x for x in k if "instr#" not in x[0]} <= {x for x in mine if "instr#" not in x[0]} | set()]
+            # the single-element run may consult atoms this path never reached
+            exact = [o for k, o in base[cls].items() if {x for x in k if "instr#" in x[0]} == own or ({x for x in k if "instr#" in x[0]} <= own and own)]
+            cands = exact or hits
+            vals = {truthy(o) for o in cands}
+            if not own and len({truthy(o) for o in base[cls].values()}) > 1:
+                return None
+            return vals.pop() if len(vals) == 1 else None
         if not any(truthy(o) for o in base["T"].values()):
             return False, {"vector": ["T"], "why": "a lone instruction dedicated to the queried type is never found"}
-        n = 0
+        # the same residual filter in the dedicated and in the default pass (single elements, same assignment)
+        def compatible(k1, k2):
+            d1, d2 = dict(k1), dict(k2)
+            return all(d2.get(a, v) == v for a, v in d1.items())
+        for kT, oT in base["T"].items():
+            for kN, oN in base["N"].items():
+                # the two assignments describe the same situation whenever one refines the other: the answers must then agree
+                if compatible(kT, kN) and (set(kT) <= set(kN) or set(kN) <= set(kT)) and truthy(oT) != truthy(oN):
+                    return False, {"vector": ["T"], "vs": ["N"], "residual": dict(max(kT, kN, key=len)), "why": "the dedicated and the default pass apply different residual filters (kind / fallibility / parameters)"}
+        if any(truthy(o) for o in base["U"].values()):
+            return False, {"vector": ["U"], "why": "an instruction dedicated to another type is returned"}
+        n = skipped = 0
         for ln in range(0, 4):
             for classes in itertools.product("TNU", repeat=ln):
                 vec = [_elem(c, i) for i, c in enumerate(classes)]
@@ -256,24 +284,26 @@ def lookup_semantics(repo, fi, impl):
                     n += 1
                     got = outcome(lf)
                     key = resid_key(lf)
-                    rT = R(key, "T")
-                    rN = R(key, "N")
-                    if rT == "?" or rN == "?":
-                        return None, "residual assignment of a vector not comparable with the single-element runs"
-                    if truthy(rT) != truthy(rN):
-                        return False, {"vector": ["T"], "vs": ["N"], "residual": dict(key), "why": "the dedicated and the default pass apply different residual filters"}
-                    if is_pred:
-                        want = ("bool", truthy(rT) and any(c in "TN" for c in classes))
-                    elif not truthy(rT):
-                        want = None
-                    else:
-                        want = next((i for i, c in enumerate(classes) if c == "T"), None)
-                        if want is None:
-                            want = next((i for i, c in enumerate(classes) if c == "N"), None)
-                    if got != want:
-                        name = lambda o: None if o is None else (o[1] if isinstance(o, tuple) else f"#{o}:{classes[o]}")
-                        return False, {"vector": list(classes), "residual": dict(key), "expected": name(want), "found": name(got),
-                                       "legend": "N = default instruction, T = dedicated to the queried type, U = dedicated to another type (declaration order)"}
+                    Rs = [R(key, i, c) if c != "U" else False for i, c in enumerate(classes)]
+                    def want_for(rs):
+                        if is_pred:
+                            return ("bool", any(rs[i] for i, c in enumerate(classes) if c in "TN"))
+                        for pass_cls in ("T", "N"):
+                            for i, c in enumerate(classes):
+                                if c == pass_cls and rs[i]:
+                                    return i
+                        return None
+                    # residuals this path never consulted are free: the answer must be right for every completion
+                    unknown = [i for i, r_ in enumerate(Rs) if r_ is None]
+                    for bits in itertools.product((False, True), repeat=len(unknown)):
+                        rs = list(Rs)
+                        for i, b in zip(unknown, bits):
+                            rs[i] = b
+                        want = want_for(rs)
+                        if got != want:
+                            name = lambda o: None if o is None else (o[1] if isinstance(o, tuple) else f"#{o}:{classes[o]}")
+                            return False, {"vector": list(classes), "passes_residual_filter": rs, "not_consulted_on_this_path": unknown, "expected": name(want), "found": name(got),
+                                           "legend": "N = default instruction, T = dedicated to the queried type, U = dedicated to another type (declaration order); each element has its own residual (kind / fallibility / parameters)"}
         return True, {"vectors_evaluated": n}
     except (Unsupported, PanicReached, Inconclusive, KeyError, IndexError, AttributeError) as e:
         return None, f"accessor not evaluable on abstract vectors: {e!r}"[:200]
